@@ -3,6 +3,7 @@ import MidnightZK.Model.C12.Zn
 import MidnightZK.Model.C12.Curve
 import MidnightZK.Model.C15.Batch
 import MidnightZK.Model.C15.Accumulator
+import MidnightZK.Model.C15.Tree
 /-!
 Line-protocol handler of property C15.
 
@@ -199,6 +200,51 @@ def fmtOptBool : Option Bool → String
   | some b => fmtBool b
   | none => "panic"
 
+/-- Postfix description of a tree of calls: `L=<dual>` pushes a leaf, `S=<factor>` replaces the top
+`t` by `t.scale(factor)`, `A` pops `o`, then `t`, and pushes `t.add_msm(o)`. Exactly one tree must
+remain. -/
+def parseTree : List String → List (GuardTree Fr Fr) → Option (GuardTree Fr Fr)
+  | [], [t] => some t
+  | [], _ => none
+  | tok :: rest, st =>
+    if tok.startsWith "L=" then
+      match parseDual (tok.drop 2).toString with
+      | some d => parseTree rest (.leaf d :: st)
+      | none => none
+    else if tok.startsWith "S=" then
+      match parseFr (tok.drop 2).toString, st with
+      | some e, t :: st' => parseTree rest (.scale t e :: st')
+      | _, _ => none
+    else if tok = "A" then
+      match st with
+      | o :: t :: st' => parseTree rest (.add t o :: st')
+      | _ => none
+    else none
+
+/-- `<stage>:<kind>/<len>,…` (or `<stage>:-`). -/
+def parseMemberTrace (s : String) : Option MemberTrace :=
+  match s.splitOn ":" with
+  | [st, tr] => do
+    let st ← st.toNat?
+    let evs ← (splitList tr ",").mapM (fun e =>
+      match e.splitOn "/" with
+      | [k, l] => do let k ← k.toNat?; let l ← l.toNat?; pure (k, l)
+      | _ => none)
+    if st ≤ 3 ∧ evs.all (fun kl => kl.1 = 1 ∨ kl.1 = 2) then pure ⟨st, evs⟩ else none
+  | _ => none
+
+def fmtGEvent (e : GEvent) : String := s!"{e.who}.{e.kind}.{e.len}"
+
+def parseEnc (enc : String) : Option (Fr → List Fr) := do
+  let tbl ← (splitList enc ",").mapM (fun e =>
+    match e.splitOn "=" with
+    | [b, fs] => do
+      let b ← parseFr b
+      let fs ← (splitList fs "/").mapM parseFr
+      pure (b, fs)
+    | _ => none)
+  pure (fun b => ((tbl.find? (fun e => e.1 = b)).map (·.2)).getD [])
+
 def answer (line : String) : String :=
   match words line with
   | ["msm-eval", m] =>
@@ -333,6 +379,47 @@ def answer (line : String) : String :=
         fmtHexList ((a.asPublicInput encf).map (·.val))
       | none => "bad-op"
     | none => "bad-op"
+  | "dual-tree" :: tau :: toks =>
+    -- a tree of `scale` / `add_msm` calls of any shape: structure and verdict of the result, and
+    -- the coefficient the model predicts for every leaf
+    match parseFr tau, parseTree toks [] with
+    | some tau, some t =>
+      fmtDual t.run ++ " " ++ fmtBool (t.run.check tau) ++ " "
+        ++ ",".intercalate (t.leaves.map (fun cd => toHex cd.1.val))
+    | _, _ => "bad-op"
+  | "gsched" :: np :: npr :: ms =>
+    -- every hasher operation of `batch_verify` in program order
+    match np.toNat?, npr.toNat?, ms.mapM parseMemberTrace with
+    | some np, some npr, some ms =>
+      let ev := globalScheduleFull np npr ms
+      if ev.isEmpty then "-" else " ".intercalate (ev.map fmtGEvent)
+    | _, _, _ => "bad-op"
+  | ["accpic", a, enc] =>
+    match parseAcc a, parseEnc enc with
+    | some a, some encf =>
+      let r := a.asPublicInputCommitted encf
+      fmtHexList (r.1.map (·.val)) ++ " " ++ fmtHexList (r.2.map (·.val))
+    | _, _ => "bad-op"
+  | "aaccumulate" :: r :: accs =>
+    -- the in-circuit `AssignedAccumulator::accumulate` on values (`r` as for `accumulate`)
+    match parseFr r, accs.mapM parseAcc with
+    | some r, some accs =>
+      match Accumulator.aAccumulate (fun _ => r) (fun _ => []) accs with
+      | some a => fmtAcc false a
+      | none => "panic"
+    | _, _ => "bad-op"
+  | "aaccumulate-pi" :: r :: enc :: accs =>
+    -- the same through the public-input form of the result (bases as the back-end encodes them)
+    match parseFr r, parseEnc enc, accs.mapM parseAcc with
+    | some r, some encf, some accs =>
+      match Accumulator.aAccumulate (fun _ => r) (fun _ => []) accs with
+      | some a => fmtHexList ((a.asPublicInput encf).map (·.val))
+      | none => "panic"
+    | _, _, _ => "bad-op"
+  | ["powers", x, n] =>
+    match parseFr x, n.toNat? with
+    | some x, some n => fmtHexList ((aPowers x n).map (·.val))
+    | _, _ => "bad-op"
   | _ => "bad-op"
 where
   join (l : List String) : String := if l.isEmpty then "-" else ",".intercalate l
